@@ -101,7 +101,7 @@ theorem fastAlone_raised_src (d : Desc) (v : Val) (e : Exc) (ha : d.isAlt = true
 theorem pyValidate_raised_src_atomic (t : TraitType) (v : Val) (e : Exc) (hs : t.subs = none)
     (hn : t.isNoFast = false) (h : pyValidate E t v = .raised e) : Src E e := by
   cases t <;> simp [TraitType.subs, TraitType.isNoFast] at hs hn <;>
-    simp only [pyValidate, pyCastNumeric, pyCastAny, pyEnumValidate, pyMapValidate, pyInstanceValidate,
+    simp only [pyValidate, pyCastNumeric, pyCastAny, pyEnumValidate, pySafeEnumValidate, pyMapValidate, pyInstanceValidate,
       pyCoerceValidate, stringValidate, completeValue, stringRun, arrayValidate, ← asInteger_eq_py] at h
   all_goals (repeat' split at h)
   all_goals (try (cases h; done))
@@ -193,10 +193,13 @@ theorem srcQ_cons (t : TraitType) (ts : List TraitType) (hP : SrcP E t) (hQ : Sr
   · intro v e want h
     simp only [pySel] at h
     split at h
-    · cases hpy : pyValidate E t v with
-      | traitError => simp only [hpy] at h; exact r2 v e want h
-      | raised e' => simp [hpy] at h; subst h; exact s3 v e' hpy
-      | ok x => simp [hpy] at h
+    · by_cases hw : (want || hasPy t) = true
+      · simp only [hw, if_true] at h
+        cases hpy : pyValidate E t v with
+        | traitError => simp only [hpy] at h; exact r2 v e want h
+        | raised e' => simp [hpy] at h; subst h; exact s3 v e' hpy
+        | ok x => simp [hpy] at h
+      · simp [hw] at h
     · exact r2 v e want h
   · intro v e h
     simp only [unionFirst] at h
